@@ -598,7 +598,23 @@ def _loop_sanitiser(F, b, header):
             rv = d[3]["rv"]
             if rv["k"] == "use" and op_const(rv["op"]) is not None:
                 continue        # a constant replacement character
-            if not any(b.edge_dominates((s, o), d[1]) for s, o in guards):
+            if any(b.edge_dominates((s, o), d[1]) for s, o in guards):
+                continue
+            # `matches!(ch, '\n' | '\r')` materialises a bool first: the copy sits on the FALSE edge of a switch on a bool
+            # local that is set to false only on the default edge of the character switch
+            ok_flag = False
+            for s2, t2 in b.terms_of_kind("switch"):
+                if t2.get("dty") != "bool" or s2 not in blks:
+                    continue
+                fl = op_place(t2["discr"])
+                false_t = [x for v, x in t2["targets"] if v == "0"]
+                if fl is None or place_proj(fl) or not false_t or not b.edge_dominates((s2, false_t[0]), d[1]):
+                    continue
+                fdefs = [fd for fd in b.defs().get(fl["l"], []) if fd[0] == "assign"]
+                falses = [fd for fd in fdefs if not ((op_const(fd[3]["rv"].get("op", {})) or {}).get("int") == "1")]
+                if fdefs and falses and all(any(b.edge_dominates((s, o), fd[1]) for s, o in guards) for fd in falses):
+                    ok_flag = True
+            if not ok_flag:
                 return None
     return "a character loop that copies a character only when it is neither \\n nor \\r"
 
